@@ -56,8 +56,10 @@ def gen_case(rng, k=None, force_n=None, force_idk=None):
 	k = k or rng.randint(1, 32)
 	prefix = rand_prefix(rng)
 	ks = KmerSpec(k, prefix)
-	dt = ks.index_dtype
-	top = 4 ** k - 1
+	# the collection's integer type: the minimal unsigned one for k, a wider one, or a signed one that can hold the values
+	cands = [ks.index_dtype] * 3 + [d_ for d_ in ('u2', 'u4', 'u8', 'i2', 'i4', 'i8') if np.dtype(d_).itemsize >= np.dtype(ks.index_dtype).itemsize and d_ != np.dtype(ks.index_dtype).str[1:]]
+	dt = np.dtype(rng.choice(cands))
+	top = min(4 ** k - 1, int(np.iinfo(dt).max))
 	n = force_n or rng.choice([1, 1, 2, 3, 5, 10, 30, rng.choice([127, 128, 129, 255, 256, 257, 1100])])
 	sigs = []
 	for i in range(n):
@@ -115,7 +117,7 @@ def gen_case(rng, k=None, force_n=None, force_idk=None):
 	else:
 		obj = base
 	comp = rng.choice(COMPRESSIONS)
-	desc = dict(k=k, prefix=prefix, n=n, base=base_kind, annotated=annotated, id_kind=idk, compression=list(comp),
+	desc = dict(k=k, prefix=prefix, n=n, dtype=dt.str[1:], base=base_kind, annotated=annotated, id_kind=idk, compression=list(comp),
 	            sizes=[len(s) for s in sigs][:10], meta=None if meta is None else {f: getattr(meta, f) for f in ('id', 'name', 'version', 'id_attr', 'description')},
 	            extra=None if meta is None else meta.extra, ids=None if ids is None else [x if isinstance(x, str) else int(x) for x in list(ids)[:8]])
 	return obj, sigs, ks, ids, meta, comp, desc
@@ -124,7 +126,7 @@ def gen_case(rng, k=None, force_n=None, force_idk=None):
 def check_roundtrip(ctx, obj, sigs, ks, ids, meta, comp, desc, path):
 	from gambit.sigs.base import dump_signatures, load_signatures, SignaturesMeta
 	ctx.case(desc, nontrivial=True, sample=desc if ctx.evals % 97 == 0 else None)
-	ctx.count(f'k_width:{ks.index_dtype}'); ctx.count(f'container:{desc["base"]}{"+annotated" if desc["annotated"] else ""}')
+	ctx.count(f'k_width:{ks.index_dtype}'); ctx.count(f'collection_dtype:{desc["dtype"]}' + ('' if np.dtype(desc['dtype']) == np.dtype(ks.index_dtype) else ('(signed)' if desc['dtype'][0] == 'i' else '(wider)'))); ctx.count(f'container:{desc["base"]}{"+annotated" if desc["annotated"] else ""}')
 	ctx.count(f'ids:{desc["id_kind"]}'); ctx.count(f'compression:{comp[0]}/{comp[1]}')
 	ctx.seen('k_values', ks.k)
 	kw = {}
@@ -187,7 +189,7 @@ def check_roundtrip(ctx, obj, sigs, ks, ids, meta, comp, desc, path):
 		if json.dumps(ea, sort_keys=True) != json.dumps(eb, sort_keys=True):
 			ctx.violation('metadata-extra', f'extra read {ea!r} written {eb!r}', desc)
 		# signatures under every kind of index
-		dt = ks.index_dtype
+		dt = np.dtype(desc['dtype'])
 		if np.dtype(h.dtype) != dt:
 			ctx.violation('dtype', f'file dtype {h.dtype} expected {dt}', desc)
 		for i in range(n):
